@@ -291,6 +291,7 @@ func C17(c *Ctx) {
 	}
 
 	c.noDropRules("C17-3")
+	c.anchoredRegexpRule("C17-6", "parser.reConvergen", "parser.reNotation")
 
 	r.Rule("C17-5", "util.GetDocCommentOn returns only `Doc` comment groups of the enclosing declaration nodes (never a trailing line comment), each under a non-nil test of that same Doc link")
 	if fn := c.MustFunc("C17-5", "/pkg/util", "GetDocCommentOn"); fn != nil {
